@@ -24,6 +24,7 @@ import numpy as np
 
 from sim import worlds
 from sim.core import SimRandom, Stats, Trace, Violation, HarnessError, array_fp
+from sim import simfs
 from sim.simfs import REAL_OPEN, SimCrash, SimFS, is_cache
 
 PROP = 'C16'
@@ -190,6 +191,14 @@ def generate(run_seed: int, tier: str = 'quick', stream: str = 'seq') -> dict:
     # swarm: restrict formats for the run sometimes
     fmts_allowed = rng.pick([['lammps', 'vasp', 'gromacs'], ['lammps', 'vasp', 'gromacs'], ['vasp'], ['lammps'], ['gromacs'], ['vasp', 'lammps']])
     datasets = [worlds.gen_dataset_params(rng, fmt=rng.pick(fmts_allowed), small=rng.chance(0.3)) for _ in range(n_ds)]
+    # sometimes two runs of the same code sit in ONE directory, told apart only by the middle of their file names
+    if n_ds >= 2 and rng.chance(0.35):
+        base = rng.pick(['md', 'run', 'sim.v2'])
+        same = [i for i in range(n_ds) if datasets[i]['fmt'] == datasets[0]['fmt']]
+        if len(same) >= 2:
+            for n_, i in enumerate(same[:2]):
+                datasets[i]['stem'] = f'{base}.part{n_ + 1}'
+                datasets[i]['dir'] = same[0]
     # per-dataset subset of argsets in play (few, to provoke key collisions)
     argsets = []
     for i, d in enumerate(datasets):
@@ -250,12 +259,15 @@ def generate(run_seed: int, tier: str = 'quick', stream: str = 'seq') -> dict:
 
     saves = 0
     last_save = {'slot': 0, 'src': 0}
+    mp_loads = rng.chance(0.3)  # this run's script makes some of its loads from multiprocessing workers
     while len(ops) < n_ops:
         kind = rng.weighted(weights)
         if kind == 'LOAD':
             k = gen_key()
             f = gen_fault(wf + rf)
             ops.append({'op': 'LOAD', **k, 'fault': f})
+            if mp_loads and rng.chance(0.3):
+                ops[-1]['mp'] = True
             if f and f['kind'] == 'crash_write':
                 ops.append({'op': 'RESTART'})
         elif kind == 'DAMAGE':
@@ -267,6 +279,8 @@ def generate(run_seed: int, tier: str = 'quick', stream: str = 'seq') -> dict:
             ops.append(gen_damage(k))
             f = gen_fault(wf) if wf else None
             ops.append({'op': 'LOAD', **k, 'fault': f})
+            if mp_loads and rng.chance(0.4):
+                ops[-1]['mp'] = True
             if f and f['kind'] == 'crash_write':
                 ops.append({'op': 'RESTART'})
                 ops.append({'op': 'LOAD', **k, 'fault': None})
@@ -353,8 +367,12 @@ class Run:
     # -- world ---------------------------------------------------------
     def build_world(self):
         for i, d in enumerate(self.datasets):
-            worlds.write_dataset(d, f'd{i}')
-            shutil.copytree(f'd{i}', os.path.join('ref', f'd{i}'))
+            simfs.EXTRA_SOURCES.update(worlds.source_basenames(d))
+            worlds.write_dataset(d, self.ddir(i))
+        for dd in sorted({self.ddir(i) for i in range(len(self.datasets))}):
+            shutil.copytree(dd, os.path.join('ref', dd))
+        for i, d in enumerate(self.datasets):
+            pass
             # harness self-check of the file writers: ground truth must be what the parser sees
         self.trace.log(ev='world', datasets=[{k: v for k, v in d.items()} for d in self.datasets])
 
@@ -365,6 +383,10 @@ class Run:
     def argset(self, ds: int, idx: int) -> dict:
         a = self.sc['world'].get('argsets')
         return a[ds][idx] if a else worlds.ARGSETS[self.datasets[ds]['fmt']][idx]
+
+    def ddir(self, ds: int) -> str:
+        """Directory of a dataset; several datasets (with their own file stems) may share one."""
+        return f"d{self.datasets[ds].get('dir', ds)}"
 
     def _call_loader(self, ds: int, args_idx: int, dirpath: str, cache):
         from gemdat import Trajectory
@@ -399,8 +421,8 @@ class Run:
         # a fresh pristine copy of the sources for every reference parse: no cache of any name or location can be present
         self._ref_serial = getattr(self, '_ref_serial', 0) + 1
         refroot = os.path.join('refrun', str(self._ref_serial))
-        refdir = os.path.join(refroot, f'd{ds}')
-        shutil.copytree(os.path.join('ref', f'd{ds}'), refdir)
+        refdir = os.path.join(refroot, self.ddir(ds))
+        shutil.copytree(os.path.join('ref', self.ddir(ds)), refdir)
         installed = self.fs.installed
         if installed:
             self.fs.uninstall()
@@ -425,14 +447,15 @@ class Run:
         if key['cache'] == 'x1':
             # a name a user would pick: the source's stem + '.cache', next to the source (one per argument set would collide,
             # so only the first argument set of a dataset gets it)
-            stem = {'lammps': 'coords', 'vasp': 'vasprun', 'gromacs': 'traj'}[self.datasets[key['ds']]['fmt']]
+            dd = self.datasets[key['ds']]
+            stem = dd.get('stem') or {'lammps': 'coords', 'vasp': 'vasprun', 'gromacs': 'traj'}[dd['fmt']]
             if key['args'] == 0:
-                return os.path.join(f"d{key['ds']}", f'{stem}.cache')
-        return os.path.join(f"d{key['ds']}", f"explicit_a{key['args']}_{key['cache']}.cache")
+                return os.path.join(self.ddir(key['ds']), f'{stem}.cache')
+        return os.path.join(self.ddir(key['ds']), f"explicit_d{key['ds']}_a{key['args']}_{key['cache']}.cache")
 
     def dir_snapshot(self, ds: int) -> dict:
         out = {}
-        for root, _dirs, files in os.walk(f'd{ds}'):
+        for root, _dirs, files in os.walk(self.ddir(ds)):
             for n in files:
                 p = os.path.join(root, n)
                 if is_cache(p):
@@ -528,6 +551,46 @@ class Run:
             self.fstate[entry['path']] = state
 
     # -- ops ---------------------------------------------------------------
+    def load_in_worker_process(self, ds, key):
+        """The loader call made from a multiprocessing worker (fork context), as in a parallel analysis script; the armed
+        fault, the record of opened files and the result travel back through a pipe."""
+        import multiprocessing as mp
+
+        ctx = mp.get_context('fork')
+        parent_conn, child_conn = ctx.Pipe(duplex=False)
+
+        def target(conn):
+            try:
+                try:
+                    T = self._call_loader(ds, key['args'], self.ddir(ds), self.explicit_path(key))
+                    msg = ('ret', pickle.dumps(T))
+                except SimCrash:
+                    msg = ('crash', None)
+                except Exception as e:  # noqa: BLE001
+                    msg = ('exc', (type(e).__name__, isinstance(e, OSError), getattr(e, 'errno', None), str(e)[:300]))
+                conn.send((msg, self.fs.armed, self.fs.log))
+            finally:
+                conn.close()
+
+        proc = ctx.Process(target=target, args=(child_conn,))
+        proc.start()
+        child_conn.close()
+        try:
+            msg, armed, log = parent_conn.recv()
+        except EOFError:
+            proc.join()
+            raise HarnessError(f'worker process died (exit code {proc.exitcode})')
+        proc.join()
+        self.fs.armed, self.fs.log = armed, log
+        self.stats.probe('load_in_multiprocessing_worker')
+        if msg[0] == 'ret':
+            return 'ret', pickle.loads(msg[1]), None
+        if msg[0] == 'crash':
+            return 'crash', None, None
+        name, is_os, eno, text = msg[1]
+        exc = OSError(eno, text) if is_os else type(name, (Exception,), {})(text)
+        return 'exc', None, exc
+
     def op_load(self, op, epilogue=False):
         key = {'ds': op['ds'] % len(self.datasets), 'args': op['args'], 'cache': op['cache']}
         ds = key['ds']
@@ -545,14 +608,17 @@ class Run:
         T = None
         exc = None
         try:
-            try:
-                T = self._call_loader(ds, key['args'], f'd{ds}', self.explicit_path(key))
-                outcome = 'ret'
-            except SimCrash:
-                outcome = 'crash'
-            except Exception as e:  # noqa: BLE001
-                outcome = 'exc'
-                exc = e
+            if op.get('mp'):
+                outcome, T, exc = self.load_in_worker_process(ds, key)
+            else:
+                try:
+                    T = self._call_loader(ds, key['args'], self.ddir(ds), self.explicit_path(key))
+                    outcome = 'ret'
+                except SimCrash:
+                    outcome = 'crash'
+                except Exception as e:  # noqa: BLE001
+                    outcome = 'exc'
+                    exc = e
         finally:
             armed = self.fs.end_op()
         oplog = list(self.fs.log)
@@ -578,7 +644,7 @@ class Run:
 
         # effective path bookkeeping
         if entry['path'] is None:
-            cands = [p for p in cache_reads + cache_writes if os.path.normpath(p).split(os.sep)[0] == f'd{ds}']
+            cands = [p for p in cache_reads + cache_writes if os.path.normpath(p).split(os.sep)[0] == self.ddir(ds)]
             cands += [p for p in changed if not os.path.basename(p).startswith(('explicit_', 'save_'))]
             if cands:
                 entry['path'] = cands[0] if os.path.exists(cands[0]) or len(cands) == 1 else next((c for c in cands if os.path.exists(c)), cands[0])
@@ -679,16 +745,18 @@ class Run:
         # R5 key separation
         if key['cache'] == 'default':
             # argument sets whose default cache the model currently believes complete (not deleted / damaged since)
+            # ... over all datasets that live in this directory
             s = sorted(
-                e['key']['args'] for e in self.keys.values()
-                if e['key']['ds'] == ds and e['key']['cache'] == 'default' and self.state_of(e) == 'complete'
+                (e['key']['ds'], e['key']['args']) for e in self.keys.values()
+                if self.ddir(e['key']['ds']) == self.ddir(ds) and e['key']['cache'] == 'default' and self.state_of(e) == 'complete'
             )
             distinct = []
-            for a in s:
-                r = self.ref(ds, a)
+            for dsx, a in s:
+                r = self.ref(dsx, a)
                 if r['kind'] == 'traj' and not any(rec_diff(r['rec'], q) is None for q in distinct):
                     distinct.append(r['rec'])
-            files = [p for p in self.dir_snapshot(ds) if not os.path.basename(p).startswith(('explicit_', 'save_'))]
+            stems = tuple((self.datasets[i].get('stem') or 'coords') + '.cache' for i in range(len(self.datasets))) + ('vasprun.cache', 'traj.cache')
+            files = [p for p in self.dir_snapshot(ds) if not os.path.basename(p).startswith(('explicit_', 'save_')) and os.path.basename(p) not in stems]
             if len(files) < len(distinct):
                 self.violation(
                     'key_collision',
@@ -1146,7 +1214,8 @@ def simplify(sc: dict):
             if used <= {keep} or len(used) <= 1:
                 c = copy.deepcopy(sc)
                 k = next(iter(used)) % len(ds) if used else 0
-                c['world']['datasets'] = [ds[k]]
+                c['world']['datasets'] = [dict(ds[k])]
+                c['world']['datasets'][0].pop('dir', None)
                 if c['world'].get('argsets'):
                     c['world']['argsets'] = [c['world']['argsets'][k]]
                 for o in c['ops']:
